@@ -9,6 +9,7 @@ import (
 
 	cfg "github.com/lianxiangcloud/linkchain/config"
 	"github.com/lianxiangcloud/linkchain/libs/common"
+	dbm "github.com/lianxiangcloud/linkchain/libs/db"
 	"github.com/lianxiangcloud/linkchain/types"
 	"github.com/xunleichain/tc-wasm/vm"
 
@@ -135,6 +136,8 @@ func runChain(c *core.Ctx) {
 		cc.sample = append(cc.sample, map[string]interface{}{"height": height, "txs": len(kinds), "kinds": kinds, "gas_used": block.Header.GasUsed})
 		cc.blocks = append(cc.blocks, hx(blockID.Hash[:]))
 
+		snapshot := copyDBs(cold.DBs) // the committed state before this block, as bytes
+		cc.diagDBs = snapshot
 		// ---- variant blocks (never committed)
 		if len(block.Data.Txs) >= 2 && r.Chance(0.5) {
 			if !cc.variant(height, block, P, cold, warm) {
@@ -143,7 +146,7 @@ func runChain(c *core.Ctx) {
 		}
 
 		// ---- the proposed block on every replica
-		snapshot := copyDBs(cold.DBs) // the committed state before this block, as bytes
+		cc.diagParts = parts
 		var ref, refPost *record
 		execs := 0
 		var receipts types.Receipts
@@ -180,7 +183,7 @@ func runChain(c *core.Ctx) {
 						others = append(others, q)
 					}
 				}
-				cc.rejected(height, parts, hdr, ref, rec, others, kinds, o)
+				cc.rejected(height, parts, hdr, ref, rec, others, kinds, o, snapshot)
 				return
 			}
 			rec.Comp, rec.Has = extract(rp.n, fb.Hash())
@@ -195,7 +198,7 @@ func runChain(c *core.Ctx) {
 			// proposer path vs validator path
 			for _, comp := range []string{"gas-used", "state-hash", "receipt-hash"} {
 				if hdr[comp] != rec.Comp[comp] {
-					c.Violation("divergence/prerun-vs-validator/"+comp, fmt.Sprintf("height %d: header %s filled by PreRunBlock = %s, replica %q computed %s", height, comp, hdr[comp], rp.kind, rec.Comp[comp]),
+					cc.viol("divergence/prerun-vs-validator/"+comp, fmt.Sprintf("height %d: header %s filled by PreRunBlock = %s, replica %q computed %s", height, comp, hdr[comp], rp.kind, rec.Comp[comp]),
 						map[string]interface{}{"height": height, "component": comp, "header": hdr[comp], "replica": rp.kind, "value": rec.Comp[comp], "block_tx_kinds": kinds, "chain": cc.sample})
 					return
 				}
@@ -248,7 +251,7 @@ func runChain(c *core.Ctx) {
 			}
 			wire(fn)
 			// a reopened node stands for a restarted process: none of the process-wide caches survive
-			vm.AppCache.Range(func(k, _ interface{}) bool { vm.AppCache.Delete(k); return true })
+			clearAppCache()
 			fb, _, _ := decode(parts)
 			procs := procsOf(r)
 			ok, why, pan := checkBlock(fn, fb, procs)
@@ -261,7 +264,7 @@ func runChain(c *core.Ctx) {
 			if !ok {
 				rec.Comp, rec.Has = extract(fn, fb.Hash())
 				fn.Close()
-				cc.rejected(height, parts, hdr, ref, rec, nil, kinds, o)
+				cc.rejected(height, parts, hdr, ref, rec, nil, kinds, o, nil)
 				return
 			}
 			rec.Comp, rec.Has = extract(fn, fb.Hash())
@@ -383,6 +386,7 @@ func (cc *chainCase) variant(height uint64, block *types.Block, P, cold, warm *c
 		c.Count("variants_executable", 1)
 	}
 	parts := vb.MakePartSet(P.Status.ConsensusParams.BlockGossip.BlockPartSizeBytes)
+	cc.diagParts = parts
 	kinds := kindsOf(w, vb)
 	var ref *record
 	for _, rp := range []*replica{{"cold", cold}, {"warm", warm}, {"proposer-self", P}} {
@@ -413,7 +417,7 @@ func (cc *chainCase) variant(height uint64, block *types.Block, P, cold, warm *c
 			c.Count("variant_result_comparisons", 1)
 		}
 		if ref.OK != rec.OK || ref.Has != rec.Has {
-			c.Violation("verdict/replicas-disagree/"+firstNonEmpty(rec.Why, ref.Why), fmt.Sprintf("height %d, %s variant: replica %q says accept=%v result=%v (%s), replica %q says accept=%v result=%v (%s)", height, mut, ref.Kind, ref.OK, ref.Has, ref.Why, rec.Kind, rec.OK, rec.Has, rec.Why),
+			cc.viol("verdict/replicas-disagree/"+firstNonEmpty(rec.Why, ref.Why), fmt.Sprintf("height %d, %s variant: replica %q says accept=%v result=%v (%s), replica %q says accept=%v result=%v (%s)", height, mut, ref.Kind, ref.OK, ref.Has, ref.Why, rec.Kind, rec.OK, rec.Has, rec.Why),
 				map[string]interface{}{"height": height, "variant": mut, "a": ref, "b": rec, "block_tx_kinds": kinds, "chain": cc.sample})
 			return false
 		}
@@ -425,13 +429,13 @@ func (cc *chainCase) variant(height uint64, block *types.Block, P, cold, warm *c
 			for _, comp := range []string{"gas-used", "state-hash", "receipt-hash"} {
 				h := map[string]string{"state-hash": hx(vb.Header.StateHash[:]), "receipt-hash": hx(vb.Header.ReceiptHash[:]), "gas-used": fmt.Sprint(vb.Header.GasUsed)}[comp]
 				if h != ref.Comp[comp] {
-					c.Violation("divergence/prerun-vs-validator/"+comp, fmt.Sprintf("height %d, %s variant: header %s filled by PreRunBlock = %s, every validator replica computed %s", height, mut, comp, h, ref.Comp[comp]),
+					cc.viol("divergence/prerun-vs-validator/"+comp, fmt.Sprintf("height %d, %s variant: header %s filled by PreRunBlock = %s, every validator replica computed %s", height, mut, comp, h, ref.Comp[comp]),
 						map[string]interface{}{"height": height, "variant": mut, "component": comp, "header": h, "value": ref.Comp[comp], "block_tx_kinds": kinds, "chain": cc.sample})
 					return false
 				}
 			}
 		}
-		c.Violation("verdict/prerun-vs-checkblock/"+firstNonEmpty(ref.Why, "prerun-failed-but-validators-accept"), fmt.Sprintf("height %d, %s variant: PreRunBlock ok=%v but CheckBlock on all replicas = %v (%s)", height, mut, preOK, ref.OK, ref.Why),
+		cc.viol("verdict/prerun-vs-checkblock/"+firstNonEmpty(ref.Why, "prerun-failed-but-validators-accept"), fmt.Sprintf("height %d, %s variant: PreRunBlock ok=%v but CheckBlock on all replicas = %v (%s)", height, mut, preOK, ref.OK, ref.Why),
 			map[string]interface{}{"height": height, "variant": mut, "prerun_ok": preOK, "check_block": ref.OK, "reason": ref.Why, "block_tx_kinds": kinds, "chain": cc.sample})
 		return false
 	}
@@ -469,8 +473,15 @@ func firstNonEmpty(a ...string) string {
 // rejected classifies the rejection of a block proposed by a correct node: do validator executions
 // disagree with each other (non-determinism), or do they agree and only differ from what the proposer
 // path wrote into the header, or is it a refusal before/without a result (signature pre-check ...).
-func (cc *chainCase) rejected(height uint64, parts *types.PartSet, hdr map[string]string, ref, rec *record, others []*replica, kinds []string, o chainOpts) {
-	c := cc.c
+func (cc *chainCase) rejected(height uint64, parts *types.PartSet, hdr map[string]string, ref, rec *record, others []*replica, kinds []string, o chainOpts, snapshot map[string]dbm.DB) {
+	if snapshot != nil && rec.Has {
+		// one more opinion, taken last: a replica reopened from the committed databases
+		if fn, err := chainkit.OpenNode(cc.g, copyDBs(snapshot), chainkit.NodeOpts{MemCfg: noCacheCfg()}); err == nil {
+			wire(fn)
+			defer fn.Close()
+			others = append(append([]*replica{}, others...), &replica{"reopened", fn})
+		}
+	}
 	wit := map[string]interface{}{"height": height, "replica": rec.Kind, "gomaxprocs": rec.Procs, "reason": rec.Why, "block_tx_kinds": kinds, "chain": cc.sample, "opts": o}
 	if rec.Has {
 		recs := []*record{}
@@ -499,12 +510,12 @@ func (cc *chainCase) rejected(height uint64, parts *types.PartSet, hdr map[strin
 		for _, comp := range []string{"gas-used", "state-hash", "receipt-hash"} {
 			if hdr[comp] != rec.Comp[comp] {
 				wit["component"], wit["header"], wit["value"], wit["agreeing_validator_executions"] = comp, hdr[comp], rec.Comp[comp], len(recs)+1
-				c.Violation("divergence/prerun-vs-validator/"+comp, fmt.Sprintf("height %d: header %s filled by PreRunBlock = %s, but %d validator execution(s) agree on %s; block rejected: %s", height, comp, hdr[comp], len(recs)+1, rec.Comp[comp], rec.Why), wit)
+				cc.viol("divergence/prerun-vs-validator/"+comp, fmt.Sprintf("height %d: header %s filled by PreRunBlock = %s, but %d validator execution(s) agree on %s; block rejected: %s", height, comp, hdr[comp], len(recs)+1, rec.Comp[comp], rec.Why), wit)
 				return
 			}
 		}
 	}
-	c.Violation("verdict/proposed-block-rejected/"+rec.Why, fmt.Sprintf("height %d: the block proposed by a correct node was rejected by replica %q (GOMAXPROCS %d): %s", height, rec.Kind, rec.Procs, rec.Why), wit)
+	cc.viol("verdict/proposed-block-rejected/"+rec.Why, fmt.Sprintf("height %d: the block proposed by a correct node was rejected by replica %q (GOMAXPROCS %d): %s", height, rec.Kind, rec.Procs, rec.Why), wit)
 }
 
 // wire does what the node's consensus start-up does for the application besides what chainkit wires.
